@@ -989,7 +989,10 @@ def parse_as_ast(
 
     else:
         assert isinstance(ast_source, ast.AST)
-        return lambda_unwrap(ast_source)
+        # The caller keeps its AST: what is built from it (type following fills in default
+        # arguments and applies call-site rewrites in place) works on a copy, so the same
+        # lambda object can be given to several streams.
+        return copy.deepcopy(lambda_unwrap(ast_source))
 
 
 def scan_for_metadata(a: ast.AST, callback: Callable[[ast.arg], None]):
